@@ -290,6 +290,9 @@ Definition option_code : list (string * list dstmt) := [
 (* driver/network/acquirepriv.go Driver.determineCurrentPriv *)
 Definition determine_current_priv_code : list dstmt :=
   [DRange "priv" "d.PrivilegeLevels" [DIf (DAtom "util.StringContainsAny(currentPrompt, priv.NotContains)") [DContinue] []; DIf (DAtom "priv.patternRe.MatchString(currentPrompt)") [DAssign "possiblePrivs" "append(possiblePrivs, priv.Name)"] []]; DIf (DEq "len(possiblePrivs)" "0") [DReturn "nil, fmt.Errorf( ""%w: could not determine privilege level from prompt '%s'"", util.ErrPrivilegeError, currentPrompt, )"] []; DReturn "possiblePrivs, nil"].
+(* channel/read.go getProcessReadBufSearchDepth *)
+Definition search_depth_code : list dstmt :=
+  [DAssign "finalSearchDepth" "promptSearchDepth"; DAssign "possibleSearchDepth" "inputSearchDepthMultiplier * inputLen"; DIf (DAtom "possibleSearchDepth > finalSearchDepth") [DAssign "finalSearchDepth" "possibleSearchDepth"] []; DReturn "finalSearchDepth"].
 (* channel/read.go processReadBuf *)
 Definition process_read_buf_code : list dstmt :=
   [DIf (DAtom "len(rb) <= searchDepth") [DReturn "rb"] []; DAssign "prb" "rb[len(rb)-searchDepth:]"; DAssign "partitionIdx" "bytes.Index(prb, []byte(""\n""))"; DIf (DAtom "partitionIdx > 0") [DAssign "prb" "prb[partitionIdx:]"] []; DReturn "prb"].
